@@ -30,6 +30,9 @@ def run(spec):
         if spec["kind"] == "patch":
             r = subprocess.run(["git", "apply", "--include=cuqi/*"] + (["-R"] if spec["reverse"] else []) + [spec["path"]], cwd=tmp, capture_output=True, text=True)
             if r.returncode:
+                from sa.thorough import apply_rebased
+                r = apply_rebased(spec["path"], spec["reverse"], tmp) or r
+            if r.returncode:
                 return {"id": spec["id"], "applied": False, "why": r.stderr[:150]}
         else:
             p = tmp + "/" + spec["file"]; src = open(p, newline="").read()
@@ -50,7 +53,8 @@ def run(spec):
                     if bad:
                         res["props"][prop] = sorted({o.rule for o in bad})
                 except AnchorError as e:
-                    res["props"][prop] = ["ANALYSIS-ERROR: " + str(e)[:80]]
+                    bad = [o for o in chk.obligations if not o.ok and chk._known_entry(o) is None]
+                    res["props"][prop] = sorted({o.rule for o in bad}) if bad else ["ANALYSIS-ERROR: " + str(e)[:80]]
                 except Exception as e:
                     res["props"][prop] = ["INTERNAL-ERROR: " + repr(e)[:80]]
         return res
